@@ -4,6 +4,21 @@
 From Coq Require Import List ZArith Bool Permutation.
 From AV Require Import Engine.Core Engine.Sem Engine.Eval Engine.Validate Engine.Naive Engine.Interface Engine.InterfaceAgg.
 From AV Require Import Engine.Strat Engine.StratFixed Engine.StratFixedLemmas Engine.SemiNaiveAgg Engine.StratRefuted Engine.MainAgg Engine.Vocab.
+From AV Require Engine.StrataAgg.
+From AV Require Engine.ChangedFlag.
+From AV Require LatEngine.LatSyntax.
+From AV Require LatEngine.LatEval.
+From AV Require LatEngine.LatSem.
+From AV Require LatEngine.LatKeys.
+From AV Require LatEngine.LatVocab.
+From AV Require LatEngine.LatExample.
+From AV Require LatEngine.LatAggEval.
+From AV Require LatEngine.LatAggTrans.
+From AV Require LatEngine.LatAggInv.
+From AV Require LatEngine.LatAggSem.
+From AV Require LatEngine.LatAggStrata.
+From AV Require LatEngine.LatAggMain.
+From AV Require LatEngine.LatAggExample.
 Import ListNotations.
 
 (* For every interpretation whose aggregators depend only on the multiset of their input, every plan accepted by the
@@ -41,3 +56,101 @@ Proof. exact run_plan_strat_correct_stmt_refuted. Qed.
 
 Print Assumptions c04_stratified_model. Print Assumptions c04_stratified_model_unique. Print Assumptions c04_no_agg_is_least_model.
 Print Assumptions c04_shipped_aggregators_perm_invariant. Print Assumptions c04_unconstrained_least_model_refuted.
+
+(* ------------------------------------------------------------------------------------------------------------------
+   C04 over LATTICES (proofs in LatEngine/LatAgg*.v; names of that development are written qualified).
+   For every value type V, interpretation, lattice (order + join_mut obeying lat_laws) per lattice relation,
+   permutation-invariant aggregators, every iteration order of the hash indices (shuffle / ashuffle) and every
+   len_estimate answer: for a plan accepted by the validator (producers of an aggregated relation in strictly earlier
+   SCCs) and by the lattice index check, a monotone program whose aggregates have plain key expressions and a plain
+   output variable, an input with one row per key / no duplicate rows, and a terminating run of the model of the
+   generated code WITH the MirBodyItem::Agg arm (LatAggEval.arun_plan): the rules are grouped into strata respecting the
+   dependencies, and the rows after run() are the STRATIFIED LATTICE MODEL - stratum after stratum R0 -> R1 with
+   (LatAggSem.stratum_lfp): R1 leaves the aggregated relations untouched, holds one row per key of every lattice
+   relation and no duplicate row, is closed under the stratum's rules where an aggregate / negation ranges over the
+   rows of R0 whose key columns carry the key - EACH ROW ONCE, ONE ROW PER KEY FOR A LATTICE -, is above R0, and is
+   below every per-key directed set with these two properties (least fixed point, C03's notion). *)
+Theorem c04_lattice_stratified_model : forall (V : Type) (I : LatSyntax.linterp V), LatSyntax.veqb_ok I ->
+  forall vagg : nat -> list (list V) -> list V, (forall a l l', Permutation l l' -> vagg a l = vagg a l') ->
+  forall (islat : rel -> bool) (lle : rel -> V -> V -> Prop) (jm : rel -> V -> V -> V * bool),
+  (forall r, islat r = true -> LatSem.lat_laws (lle r) (jm r)) ->
+  forall shuffle : nat -> list nat -> list nat, (forall n l x, In x (shuffle n l) <-> In x l) ->
+  forall ashuffle : nat -> list nat -> list nat, (forall n l, Permutation (ashuffle n l) l) ->
+  forall (swap_oracle : nat -> list nat -> list nat -> bool) (arities : list (rel * nat)), arities_functional arities ->
+  forall (P : list rule) (N : var), LatAggSem.amonotone_program I islat lle N P ->
+  forall pl : plan, validate arities P pl = true -> LatAggEval.alat_plan_ok islat arities pl = true -> LatAggTrans.plan_below N pl = true ->
+  forall (fuel : nat) (Rin : rel -> list (LatSyntax.vtuple V)) (st : LatEval.lstate), LatAggMain.ainput_ok I islat lle arities Rin ->
+  LatAggEval.arun_plan I vagg islat jm shuffle ashuffle swap_oracle fuel pl Rin = Some st ->
+  stratified (plan_strata P pl) = true
+  /\ (forall r, In r P <-> In r (concat (plan_strata P pl)))
+  /\ LatAggSem.strat_lat_model I vagg islat lle (plan_strata P pl) Rin (LatEval.l_rows st)
+  /\ LatKeys.keys_ok islat (LatEval.l_rows st) /\ LatAggInv.plain_nodup islat (LatEval.l_rows st).
+Proof. exact @LatAggMain.lat_agg_stratified_model. Qed.
+
+(* the rows an aggregate of a stratum ranges over are the FINAL rows of the aggregated relation: neither the SCC of the
+   aggregate nor any later one changes them *)
+Theorem c04_lattice_aggregated_final : forall (V : Type) (I : LatSyntax.linterp V), LatSyntax.veqb_ok I ->
+  forall vagg : nat -> list (list V) -> list V, (forall a l l', Permutation l l' -> vagg a l = vagg a l') ->
+  forall (islat : rel -> bool) (lle : rel -> V -> V -> Prop) (jm : rel -> V -> V -> V * bool),
+  (forall r, islat r = true -> LatSem.lat_laws (lle r) (jm r)) ->
+  forall shuffle : nat -> list nat -> list nat, (forall n l x, In x (shuffle n l) <-> In x l) ->
+  forall ashuffle : nat -> list nat -> list nat, (forall n l, Permutation (ashuffle n l) l) ->
+  forall (swap_oracle : nat -> list nat -> list nat -> bool) (arities : list (rel * nat)), arities_functional arities ->
+  forall (P : list rule) (N : var), LatAggSem.amonotone_program I islat lle N P ->
+  forall pl : plan, validate arities P pl = true -> LatAggEval.alat_plan_ok islat arities pl = true -> LatAggTrans.plan_below N pl = true ->
+  forall (fuel : nat) (pre : list pscc) (sc : pscc) (rest : list pscc) (st st' : LatEval.lstate),
+  pl = pre ++ sc :: rest -> LatAggStrata.AG I islat lle arities st ->
+  LatAggEval.arun_sccs I vagg islat jm shuffle ashuffle swap_oracle fuel (sc :: rest) st = Some st' ->
+  forall q, In q (stratum_agg_rels (StrataAgg.stratum_of P sc)) -> LatEval.l_rows st' q = LatEval.l_rows st q.
+Proof. exact @LatAggMain.lat_agg_aggregated_final. Qed.
+
+(* the shipped aggregators (Agg/AggModel.v, C17) meet the permutation hypothesis *)
+Theorem c04_lattice_shipped_aggregators : forall a l l', Permutation l l' -> std_aint a l = std_aint a l'.
+Proof. exact LatAggExample.ag_agg_perm. Qed.
+
+(* non-vacuity: shortest paths over Dual (a lattice raised over several iterations) with a count and a negation over it, on
+   the plan shape the macro produces: every hypothesis holds, the model runs, and the theorem applies *)
+Theorem c04_lattice_example : exists st,
+  LatAggEval.arun_plan LatVocab.lv_interp std_aint LatExample.sp_islat LatExample.sp_jm LatVocab.lv_shuffle LatVocab.lv_shuffle LatVocab.lv_swap 40
+                       LatAggExample.ag_plan LatAggExample.ag_input = Some st
+  /\ LatAggSem.strat_lat_model LatVocab.lv_interp std_aint LatExample.sp_islat LatExample.sp_lle
+                               (plan_strata LatAggExample.ag_prog LatAggExample.ag_plan) LatAggExample.ag_input (LatEval.l_rows st)
+  /\ LatKeys.keys_ok LatExample.sp_islat (LatEval.l_rows st).
+Proof. exact LatAggExample.ag_instance. Qed.
+
+Print Assumptions c04_lattice_stratified_model. Print Assumptions c04_lattice_aggregated_final.
+Print Assumptions c04_lattice_shipped_aggregators. Print Assumptions c04_lattice_example.
+
+(* ------------------------------------------------------------------------------------------------------------------
+   The `__changed` flag of the fixpoint loop (Engine/ChangedFlag.v): the generated loop of a looping SCC does not test
+   "no new fact", it tests a flag that the head updates set; after the loop only `total` is written back, the last
+   `delta` is dropped.  [flag sc r] = an insertion into relation r inside SCC sc sets the flag.  Whenever every head
+   relation of every looping SCC sets it (the generated code: every head clause does), the flagged engine is
+   Eval.run_plan and computes the stratified model - what a later stratum's negation / aggregate reads is complete. *)
+Theorem c04_changed_flag_engine_is_run_plan : forall I swap flag fuel pl st,
+  ChangedFlag.plan_flag_covers flag pl -> ChangedFlag.run_plan_flag I swap flag fuel pl st = run_plan I swap fuel pl st.
+Proof. exact ChangedFlag.run_plan_flag_eq. Qed.
+
+Theorem c04_changed_flag_stratified_model : forall (I : interp) (swap : list tuple -> list tuple -> bool) flag arities P pl fuel F0 st,
+  arities_functional arities -> wf_facts arities F0 = true -> NoDup F0 -> agg_perm_invariant I ->
+  validate arities P pl = true -> ChangedFlag.plan_flag_covers flag pl ->
+  ChangedFlag.run_plan_flag I swap flag fuel pl (init_state F0) = Some st ->
+  stratified (plan_strata P pl) = true
+  /\ (forall r, In r P <-> In r (concat (plan_strata P pl)))
+  /\ strat_model_fixed I (plan_strata P pl) F0 (rows st)
+  /\ NoDup (rows st)
+  /\ exists added, rows st = F0 ++ added.
+Proof. exact ChangedFlag.run_plan_flag_strat_correct. Qed.
+
+(* ... and the hypothesis cannot be weakened to "relations that some rule of the SCC reads": for
+   p(x, y) <-- e(x, y);  p(x, z), v(x, z, y) <-- p(x, y), e(y, z);  c(n) <-- agg n = count() in v(_, _, _)   on a graph with two
+   routes of different length the tuples v receives in the last productive iteration never reach the stored index, the count
+   is 3 instead of 4 (ChangedFlag.w_flagged_count), and the rows are NOT the stratified model *)
+Theorem c04_changed_flag_only_for_read_heads_refuted : exists arities P pl F0 fuel st,
+  arities_functional arities /\ wf_facts arities F0 = true /\ NoDup F0 /\ agg_perm_invariant std_interp /\ validate arities P pl = true
+  /\ ChangedFlag.run_plan_flag std_interp std_swap ChangedFlag.flag_read_in_scc fuel pl (init_state F0) = Some st
+  /\ ~ strat_model_fixed std_interp (plan_strata P pl) F0 (rows st).
+Proof. exact ChangedFlag.changed_flag_read_in_scc_refuted. Qed.
+
+Print Assumptions c04_changed_flag_engine_is_run_plan. Print Assumptions c04_changed_flag_stratified_model.
+Print Assumptions c04_changed_flag_only_for_read_heads_refuted.
